@@ -220,7 +220,25 @@ def compare(exp, got):
 
 
 def classify(case, detail):
-    return None
+    """K-stale-column-after-redefinition: with a provider, an unqualified column is also attributed to a table that was RE-DEFINED without that column
+    (the old definition's column node is still in the graph and the graph-based repair finds it).
+    trigger: the script redefines a table (CREATE OR REPLACE) and runs with a provider; symptom: nothing but paths that extend a 'missing' path - one ending
+    at a column of the redefined table - by one more hop"""
+    import re
+
+    script = case.get("script", "")
+    if not case.get("provider") or detail.get("what") != "reported paths differ from the composition of the per-statement dataflows":
+        return None
+    redefined = {m.lower() for m in re.findall(r"CREATE OR REPLACE (?:TABLE|VIEW) ([\w.]+)", script)}
+    extra, missing = [list(p) for p in detail.get("extra", [])], [list(p) for p in detail.get("missing", [])]
+    if not redefined or not extra:
+        return None
+    for p in extra:
+        if len(p) < 2 or p[-2].rsplit(".", 1)[0] not in redefined or p[:-1] not in missing:
+            return None
+    if any(m not in [p[:-1] for p in extra] for m in missing):
+        return None
+    return "K-stale-column-after-redefinition@C04"
 
 
 def _worker(payload):
